@@ -50,7 +50,7 @@ func (j job) prmString() string {
 	return strings.Join(s, ",")
 }
 
-var traceScripts = []string{"basic", "retention", "baseline", "reset", "resetfetch", "republish", "rerestore", "follow", "restorev3", "followstart", "sidecar", "checkpoint"}
+var traceScripts = []string{"basic", "ckpttrunc", "retention", "baseline", "reset", "resetfetch", "republish", "rerestore", "follow", "restorev3", "followstart", "sidecar", "checkpoint"}
 
 func drawJob(r *rand.Rand, script string) job {
 	return job{Script: script, Seed: r.Int63n(1 << 30), Prm: []int{2 + r.Intn(4), 1 + r.Intn(4), 50 + r.Intn(3000)}}
@@ -193,7 +193,7 @@ func modeTrace(self, out string, n int, seed int64, replay *job) error {
 
 // ---- C03 -----------------------------------------------------------------------
 
-var killScripts = []string{"basic", "backlog", "followstart", "restorev3", "reset", "resetfetch", "republish", "retention", "baseline", "rerestore", "checkpoint", "follow", "sidecar"}
+var killScripts = []string{"basic", "backlog", "ckpttrunc", "followstart", "restorev3", "reset", "resetfetch", "republish", "retention", "baseline", "rerestore", "checkpoint", "follow", "sidecar"}
 
 var dense = map[string]bool{"followstart": true, "restorev3": true, "backlog": true}
 
